@@ -365,7 +365,8 @@ PROPS = {
                       "exactly when some string fails tokenizer/parser/scoping/proposition/support validation or (extended) needs a "
                       "label without a context set (parseAll_error_iff, error_iff); panics inside the BDD / graph libraries "
                       "and stack exhaustion on unbounded nesting are outside the model",
-        "rule": "O14: every string entry point (plain/extended, raw/sanitised, unsafe_ex) under catch_unwind on random, "
+        "rule": "O14: context sets taken from a graph with another number of variable sets must be rejected with an error value; "
+                "every string entry point (plain/extended, raw/sanitised, unsafe_ex) under catch_unwind on random, "
                 "grammar-mutated and unicode strings, propositions named like spare BDD variables, arbitrary subsets of the context "
                 "labels, k=0..2; error kinds compared with the model",
         "assumptions": EVAL_ASSUME,
